@@ -33,7 +33,7 @@ const BUDGET: Duration = Duration::from_secs(2);
 const STUCK: Duration = Duration::from_secs(60);
 
 /// record types whose RDATA codec has no Lean model yet (must equal `Wire.unmodelled`)
-const UNMODELLED: &[u16] = &[65, 64];
+const UNMODELLED: &[u16] = &[];
 
 /// every RecordType code hickory knows, plus a few it does not
 const ALL_TYPES: &[u16] = &[
@@ -164,6 +164,8 @@ fn show_rdata(d: &RData) -> String {
             u8::from(k.algorithm()),
             hex(k.public_key())
         ),
+        RData::SVCB(x) => show_svcb(x),
+        RData::HTTPS(x) => show_svcb(&x.0),
         RData::CAA(c) => format!(
             "CAA:{}:{}:{}:{}",
             b(c.issuer_critical),
@@ -215,6 +217,34 @@ fn show_sig_rdata(s: &hickory_proto::dnssec::rdata::SIG) -> String {
         name_tok(&i.signer_name),
         hex(s.sig())
     )
+}
+
+fn show_svcb(x: &hickory_proto::rr::rdata::SVCB) -> String {
+    use hickory_proto::rr::rdata::svcb::SvcParamValue as V;
+    let ps: Vec<String> = x
+        .svc_params
+        .iter()
+        .map(|(k, v)| {
+            let vs = match v {
+                V::Mandatory(m) => format!("M{}", m.0.iter().map(|k| u16::from(*k).to_string()).collect::<Vec<_>>().join(".")),
+                V::Alpn(a) => format!("A{}", a.0.iter().map(|s| hex(s.as_bytes())).collect::<Vec<_>>().join("|")),
+                V::NoDefaultAlpn => "N".to_string(),
+                V::Port(p) => format!("P{p}"),
+                V::Ipv4Hint(h) => {
+                    let v: Vec<u8> = h.0.iter().flat_map(|a| a.0.octets()).collect();
+                    format!("4{}", hex(&v))
+                }
+                V::EchConfigList(e) => format!("E{}", hex(&e.0)),
+                V::Ipv6Hint(h) => {
+                    let v: Vec<u8> = h.0.iter().flat_map(|a| a.0.octets()).collect();
+                    format!("6{}", hex(&v))
+                }
+                V::Unknown(u) => format!("U{}", hex(&u.0)),
+            };
+            format!("{}={}", u16::from(*k), vs)
+        })
+        .collect();
+    format!("SVCB:{}:{}:{}", x.svc_priority, name_tok(&x.target_name), ps.join(";"))
 }
 
 fn show_tlsa(t: &hickory_proto::rr::rdata::TLSA) -> String {
